@@ -911,3 +911,113 @@ package otr3
 //@   requires len(key) == 16
 //@   pure
 //@   ensures result1 == nil && fresh(result0) && len(result0) == len(data)
+
+// ---------------------------------------------------------------------------
+// SMP (C11, C12)
+// ---------------------------------------------------------------------------
+//@ define isExp1(s) = typeis(s, smpStateExpect1)
+//@ define isExp2(s) = typeis(s, smpStateExpect2)
+//@ define isExp3(s) = typeis(s, smpStateExpect3)
+//@ define isExp4(s) = typeis(s, smpStateExpect4)
+//@ define isWaitSecret(s) = typeis(s, smpStateWaitingForSecret)
+//@ define isAbortMsg(m) = typeis(m, smpMessageAbort)
+
+//@ func (otrV3).isGroupElement
+//@   requires n != nil
+//@   pure
+//@   ensures [C12.group.v3] result <==> inGroup(n)
+//@ func (otrV2).isGroupElement
+//@   requires n != nil
+//@   pure
+//@   ensures [C12.group.v2] result <==> inGroup(n)
+
+//@ func modExp
+//@   requires g != nil && x != nil && m != nil
+//@   pure
+//@   mayglobal g, x, m
+//@   ensures result != nil && fresh(result) && val(result) == powmod(val(g), val(x), val(m))
+//@ func modExpP
+//@   requires g != nil && x != nil
+//@   pure
+//@   mayglobal g, x
+//@   ensures result != nil && fresh(result) && val(result) == powmod(val(g), val(x), val(p))
+//@ func mulMod
+//@   requires l != nil && r != nil && m != nil && val(m) != 0
+//@   pure
+//@   mayglobal l, r, m
+//@   ensures result != nil && fresh(result) && val(result) == (val(l) * val(r)) % val(m)
+//@ func divMod
+//@   requires l != nil && r != nil && m != nil && val(m) != 0 && hasinv(val(r), val(m))
+//@   pure
+//@   mayglobal l, r, m
+//@   ensures [C12.inv.nonzero] result != nil && fresh(result) && val(result) == (val(l) * invmod(val(r), val(m))) % val(m)
+//@ func eq
+//@   requires l != nil && r != nil
+//@   pure
+//@   mayglobal l, r
+//@   ensures result <==> val(l) == val(r)
+
+//@ func (*Conversation).verifySMP3ProtocolSuccess
+//@   requires c != nil && s2 != nil && msg.pa != nil && msg.ra != nil && s2.pb != nil && s2.b3 != nil && hasinv(val(s2.pb), val(p))
+//@   pure
+//@   ensures [C11.final.3] (result == nil) <==> (powmod(val(msg.ra), val(s2.b3), val(p)) == (val(msg.pa) * invmod(val(s2.pb), val(p))) % val(p))
+//@ func (*Conversation).verifySMP4ProtocolSuccess
+//@   requires c != nil && s1 != nil && s3 != nil && msg.rb != nil && s1.a3 != nil && s3.papb != nil
+//@   pure
+//@   ensures [C11.final.4] (result == nil) <==> (powmod(val(msg.rb), val(s1.a3), val(p)) == val(s3.papb))
+
+//@ func (*Conversation).verifySMP1
+//@   requires c != nil && c.version != nil && msg.g2a != nil && msg.g3a != nil && msg.c2 != nil && msg.c3 != nil && msg.d2 != nil && msg.d3 != nil
+//@   pure
+//@   ensures [C12.group.1] result == nil ==> (inGroup(msg.g2a) && inGroup(msg.g3a))
+//@ func (*Conversation).verifySMP2
+//@   requires c != nil && c.version != nil && s1 != nil && s1.a2 != nil && s1.a3 != nil && msg.g2b != nil && msg.g3b != nil && msg.pb != nil && msg.qb != nil && msg.c2 != nil && msg.c3 != nil && msg.d2 != nil && msg.d3 != nil && msg.cp != nil && msg.d5 != nil && msg.d6 != nil
+//@   pure
+//@   ensures [C12.group.2] result == nil ==> (inGroup(msg.g2b) && inGroup(msg.g3b) && inGroup(msg.pb) && inGroup(msg.qb))
+
+//@ func (smpStateBase).receiveMessage1
+//@   requires c != nil
+//@   modifies smplog(c)
+//@   ensures [C12.table.base.msg1] isExp1(result0) && isAbortMsg(result1) && result2 == nil && smplog(c) == evpush(old(smplog(c)), uint64(SMPEventError))
+//@ func (smpStateBase).receiveMessage2
+//@   requires c != nil
+//@   modifies smplog(c)
+//@   ensures [C12.table.base.msg2] isExp1(result0) && isAbortMsg(result1) && result2 == nil && smplog(c) == evpush(old(smplog(c)), uint64(SMPEventError))
+//@ func (smpStateBase).receiveMessage3
+//@   requires c != nil
+//@   modifies smplog(c)
+//@   ensures [C12.table.base.msg3] isExp1(result0) && isAbortMsg(result1) && result2 == nil && smplog(c) == evpush(old(smplog(c)), uint64(SMPEventError))
+//@ func (smpStateBase).receiveMessage4
+//@   requires c != nil
+//@   modifies smplog(c)
+//@   ensures [C12.table.base.msg4] isExp1(result0) && isAbortMsg(result1) && result2 == nil && smplog(c) == evpush(old(smplog(c)), uint64(SMPEventError))
+//@ func (smpStateBase).continueMessage1
+//@   pure
+//@   ensures [C12.table.base.continue] isExp1(result0) && isAbortMsg(result1) && result2 == errNotWaitingForSMPSecret
+//@ func (*Conversation).abortStateMachineAndNotifyCheated
+//@   requires c != nil
+//@   modifies smplog(c)
+//@   ensures [C12.cheated] isExp1(result0) && isAbortMsg(result1) && result2 == nil && smplog(c) == evpush(old(smplog(c)), uint64(SMPEventCheated))
+
+//@ func (smpStateExpect3).receiveMessage3
+//@   requires c != nil && c.version != nil && c.smp.s2 != nil
+//@   modifies anything
+//@   modifies smplog(c)
+//@   preserves [C12.exp3.frame] c.msgState, c.theirKey, c.version, c.keys.ourKeyID, c.keys.theirKeyID, c.ake
+//@   ensures [C12.table.exp3.msg3] isExp1(result0)
+//@ func (smpStateExpect4).receiveMessage4
+//@   requires c != nil && c.version != nil && c.smp.s1 != nil && c.smp.s3 != nil
+//@   modifies anything
+//@   modifies smplog(c)
+//@   preserves [C12.exp4.frame] c.msgState, c.theirKey, c.version, c.keys.ourKeyID, c.keys.theirKeyID, c.ake
+//@   ensures [C12.table.exp4.msg4] isExp1(result0)
+
+//@ func (*smp).ensureSMP
+//@   requires s != nil
+//@   modifies s.state
+//@   ensures [C12.state.nonnil.ensure] s.state != nil && (old(s.state) != nil ==> s.state == old(s.state)) && (old(s.state) == nil ==> isExp1(s.state))
+//@ func (*Conversation).continueSMP
+//@   requires c != nil
+//@   modifies anything
+//@   modifies smplog(c)
+//@   ensures [C12.continue.err] result1 != nil ==> result0 == nil
